@@ -312,7 +312,7 @@ def jobs(tier, seed):
                      "weight": 8, "cpu_cap": 2400, "wall_cap": 3600})
     nul_docs = [[{"v": "a"}, "<NUL>", {"v": "b"}, "\n"], ["# <NUL>", {"v": "a"}, "\n\n`<NUL>`\n"], ["[", {"v": "a"}, "<NUL>](/u<NUL>)\n"]]
     if tier == "quick":
-        nul_docs = [[{"v": "a"}, "<NUL>b\n"], ["# <NUL>", {"v": "a"}, "\n\n`<NUL>`\n"], ["[", {"v": "a"}, "<NUL>](/u \"<NUL>\")\n"]]
+        nul_docs = [[{"v": "a"}, "<NUL>b\n"], ["# <NUL>", {"v": "a"}, "\n\n`<NUL>`\n"]]  # the link document (~100 CPU-s per path) is thorough-only
     for sc in nul_docs:
         jobs.append({"harness": "nul", "params": {"cfg": JS, "scaffold": sc, "spec": {}}, "weight": 6, "cpu_cap": 2400, "wall_cap": 3600})
     kt = 3 if tier == "quick" else 4
